@@ -141,6 +141,11 @@ pub fn suite_c15(ctx: &mut Ctx) {
     // two-argument functions
     let per2 = ctx.q(1500, 20_000);
     for f in ["hypot", "powf", "atan2"] {
+        for &a in gen::specials(32).iter() {
+            for &b in gen::specials(32).iter().step_by(2) {
+                ctx.call(ty, f, "m", &[a, b]);
+            }
+        }
         for _ in 0..per2 {
             let pick = |ctx: &mut Ctx| match ctx.rng.gen_range(0..6) {
                 0 => lat[ctx.rng.gen_range(0..lat.len())],
